@@ -70,6 +70,27 @@ class CsvObject(object):
             f.write(self.text)
 
 
+# "content versions" are distinct but SIMILAR texts: consecutive versions may differ only in white space at
+# the end (or at the beginning) - "exactly the content produced from the current data" means exactly.
+def data_text(version, p, m):
+    """Text of a string / write-method source: version 1 body 1; versions 2, 3, 4 = body 2 as it is, with a
+    trailing newline, with a leading newline; 5, 6, 7 = body 3 ..."""
+    if version < 2:
+        return "x,y\n0,1\n1,%d\n2,%d" % (p, m)
+    k = version - 2
+    body = "x,y\n0,%d\n1,%d\n2,%d" % (k // 3 + 2, p, m)
+    return (body, body + "\n", "\n" + body)[k % 3]
+
+
+def tpl_body(version):
+    """Template versions 1, 2 render the same body without / with a trailing newline, versions 3, 4 the next body ..."""
+    return (version + 1) // 2
+
+
+def tpl_tail(version):
+    return "\n" if version % 2 == 0 else ""
+
+
 class Plot(object):
     """Naming and data of one plot (one source) or one group (several sources, one tex / pdf / png).
 
@@ -132,7 +153,7 @@ class Plot(object):
             return h
         if k == "graph":
             return lena.structures.graph([[0, 1, 2], [version, self.p, 7 + m]])
-        text = "x,y\n0,%d\n1,%d\n2,%d" % (version, self.p, m)
+        text = data_text(version, self.p, m)
         if k == "str" and version == 1:
             text = ""      # data that looks like nothing: the first version of a string source is the empty string
         return CsvObject(text) if k == "obj" else text
@@ -169,8 +190,8 @@ class Plot(object):
         """What Workspace.write_template(version) renders to for this plot / group."""
         csvs = " ".join(self.csv_path(outdir, m) for m in range(1, self.nsrc + 1))
         # (an unnamed value has no "name" in its context: the template variable renders as nothing)
-        return "%s END\n%% %stemplate version %d for %s" % (csvs, "ALT " if self.template else "", version,
-                                                           "" if self.unnamed else self.gname)
+        return "%s END\n%% %stemplate version %d for %s%s" % (csvs, "ALT " if self.template else "", tpl_body(version),
+                                                             "" if self.unnamed else self.gname, tpl_tail(version))
 
 
 class Tap(object):
@@ -225,11 +246,14 @@ class Workspace(object):
 
     def write_template(self, version, stamp):
         # first line: the csv file(s) the plot is made from, then END; then the template proper
-        texts = {"plot.tex": "\\VAR{ output.filepath } END\n%% template version %d for \\VAR{ name }\n" % version,
+        # (jinja2 drops ONE newline at the end of a template: an even version ends with two of them and
+        # renders to the text of the version before it plus a newline)
+        body, tail = tpl_body(version), tpl_tail(version)
+        texts = {"plot.tex": "\\VAR{ output.filepath } END\n%% template version %d for \\VAR{ name }\n%s" % (body, tail),
                  # chosen through context.output.template
-                 "alt.tex": "\\VAR{ output.filepath } END\n%% ALT template version %d for \\VAR{ name }\n" % version,
+                 "alt.tex": "\\VAR{ output.filepath } END\n%% ALT template version %d for \\VAR{ name }\n%s" % (body, tail),
                  "group.tex": "\\BLOCK{ for item in group }\\VAR{ item.output.filepath } \\BLOCK{ endfor }END\n"
-                              "%% template version %d for \\VAR{ grp }\n" % version}
+                              "%% template version %d for \\VAR{ grp }\n%s" % (body, tail)}
         for name, text in texts.items():
             path = os.path.join(self.tpl, name)
             with open(path, "w") as f:
@@ -417,7 +441,7 @@ def run_history(ws, sc, st, steps, same_objects=False, variant=0):
 
 # order of the predicates along the chain: the first failing one names the violation
 PRIORITY = ["RunRaised", "Yielded", "Current_csv", "Current_tex", "Changed", "Regenerated_pdf", "Current_pdf",
-            "Regenerated_png", "Current_png", "NoRedo"]
+            "Regenerated_png", "Current_png", "NoRedo", "NoRedoPlot"]
 _BAD_RE = re.compile(r'^<<"BAD", (\d+), (\d+), "(\w+)", (\d+)>>', re.M)
 _END_RE = re.compile(r'^<<"END", (\d+)>>', re.M)
 
@@ -498,7 +522,7 @@ def cause(rec, j, pred, p):
         return csv
     if pred == "Current_tex":
         return "tex=" + a["tex"]
-    if pred in ("Changed", "NoRedo"):
+    if pred in ("Changed", "NoRedo", "NoRedoPlot"):
         return first
     if pred == "Regenerated_pdf":
         return first if first.startswith(("csv", "tex")) else "pdf=missing"
